@@ -75,7 +75,7 @@ pub fn check(text: &str, ordering: &Option<Ordering>) -> Check {
     let limit = (1usize << std::cmp::min(idents.len(), 16)) + 2;
     guarded(&cj.clone(), || {
         let (r, pf) = match front::run_text(text.as_bytes(), to_symbols(ordering), Some(limit)) {
-            Run::ParseErr(e) => return Err(v(format!("well-formed formula rejected: {}", e))),
+            Run::ParseErr(e) => return Err(front::rejection(text, "well-formed formula", &e, &cj)),
             Run::ParsePanic(p) => return Err(v(format!("parser panicked: {}", p))),
             Run::EvalPanic(p, _) => return Err(v(format!("evaluation panicked: {}", p))),
             Run::Ok(r, pf) => (r, pf),
